@@ -96,6 +96,57 @@ def pointer_chain(body, defs, op):
     return {'adds': adds, 'root': root, 'via_mut_ptr': mutable, 'other': other}
 
 
+def alignment_guarded(b, defs, bb):
+    """Is block bb only reachable through the `true` edge of a recognised alignment test
+    (`p.is_aligned()`, `addr % align_of::<T>() == 0`, `addr & (align_of::<T>() - 1) == 0`,
+    `p.align_offset(align_of::<T>()) == 0`)?"""
+    dom = b.dominators(unwind=False)
+    for sb in dom.get(bb, set()):
+        blk = b.blocks[sb]
+        t = blk['term']
+        if t['k'] != 'switch' or sb == bb:
+            continue
+        x = trace_value(b, defs, t['d'])[-1]
+        good_edge = None
+        tg = dict(t['targets'])
+        if x[0] == 'call' and (callee_path(x[1]) or '').endswith('::is_aligned'):
+            good_edge = t['otherwise'] if 0 in tg else tg.get(1)
+        elif x[0] == 'rv' and x[1]['k'] == 'bin' and x[1]['op'] in ('Eq', 'Ne'):
+            zero = op_int(x[1]['r']) == 0 or op_int(x[1]['l']) == 0
+            other = x[1]['l'] if op_int(x[1]['r']) == 0 else x[1]['r']
+            y = trace_value(b, defs, other)[-1]
+            recognised = False
+            if zero and y[0] == 'rv' and y[1]['k'] == 'bin':
+                def is_align(op):
+                    z = trace_value(b, defs, op)[-1]
+                    return z[0] == 'call' and callee_path(z[1]) == 'core::mem::align_of'
+                if y[1]['op'] == 'Rem' and is_align(y[1]['r']):
+                    recognised = True
+                if y[1]['op'] == 'BitAnd':
+                    for side in ('l', 'r'):
+                        m = trace_value(b, defs, y[1][side])[-1]
+                        if m[0] == 'rv' and m[1]['k'] == 'bin' and m[1]['op'] in ('Sub', 'SubUnchecked') and is_align(m[1]['l']) and op_int(m[1]['r']) == 1:
+                            recognised = True
+                        if m[0] == 'place' and m[1]['p'] and isinstance(m[1]['p'][-1], dict) and m[1]['p'][-1].get('f') == 0:
+                            # (align - 1) computed with an overflow check: _x.0 of SubWithOverflow
+                            d = single_def(defs, m[1]['l'])
+                            if d and d[0] == 'stmt' and d[3]['rv']['k'] == 'bin' and d[3]['rv']['op'] == 'SubWithOverflow' and is_align(d[3]['rv']['l']) and op_int(d[3]['rv']['r']) == 1:
+                                recognised = True
+            elif zero and y[0] == 'call' and (callee_path(y[1]) or '').endswith('::align_offset'):
+                a1 = trace_value(b, defs, y[1]['args'][1])[-1]
+                recognised = a1[0] == 'call' and callee_path(a1[1]) == 'core::mem::align_of'
+            if recognised:
+                eq = x[1]['op'] == 'Eq'
+                true_edge = t['otherwise'] if 0 in tg else tg.get(1)
+                false_edge = tg.get(0)
+                good_edge = true_edge if eq else false_edge
+        if good_edge is None:
+            continue
+        if bb not in b.reachable(0, unwind=False, removed_edges=[(sb, good_edge)]):
+            return True
+    return False
+
+
 def rule_prim(ctx, crate):
     """R-PRIM (C04, C07): per primitive: touches exactly base+offset; stores and `&mut`
     go through a pointer with write provenance; alignment requirement of the access."""
@@ -107,10 +158,24 @@ def rule_prim(ctx, crate):
             continue
         defs = local_defs(b)
         access = None      # (pointer operand, aligned, is_store)
+        accesses = []
         for bb, t in b.calls():
             p = callee_path(t)
             if p in ALIGNED_ACCESS:
-                access = (t['args'][0], ALIGNED_ACCESS[p], 'write' in p, fmt_span(t['span']))
+                al = ALIGNED_ACCESS[p]
+                if al and alignment_guarded(b, defs, bb):
+                    al = False      # only reached when a recognised alignment test of the address succeeded
+                accesses.append((t['args'][0], al, 'write' in p, fmt_span(t['span'])))
+        if accesses:
+            # every access must be `data + offset`; the primitive requires alignment if any unguarded aligned access exists
+            access = sorted(accesses, key=lambda a: not a[1])[0]
+            for other in accesses:
+                if other is access:
+                    continue
+                ch2 = pointer_chain(b, defs, other[0])
+                ok2 = len(ch2['adds']) == 1 and trace_value(b, defs, ch2['adds'][0])[-1] == ('param', 2) and not ch2['other']
+                if not ok2:
+                    ctx.add(['C04', 'C07'], 'R-PRIM', PRIM + name, 'a second memory access of the primitive at %s is not `data + offset`' % other[3], key=name + '.addr2')
         if access is None and name in ('get', 'get_mut'):
             # the returned reference: _0 = &[mut] (*_p) possibly through reborrows
             steps = trace_value(b, defs, {'copy': {'l': 0, 'p': [], 'ty': None}})
